@@ -152,7 +152,8 @@ Definition hw_model (q : query) (qual : bool) : hout :=
 (* 2: SELECT * over a join
    3: ON contains a `column = column` conjunct together with anything that is not a left-right key
       (residual conjuncts, same-side equalities): only the left-right keys are kept       [two tables]
-   4: outer join with a WHERE clause: WHERE acts as part of the match condition          [two tables]
+   4: outer join with a WHERE clause: WHERE acts as part of the match condition   [two tables, or the
+      last join of a longer chain]
    8: hash path and two keys that are equal in SQL but hash differently (0.0 / -0.0)     [two tables]
   10: WHERE clause and table-qualified column names: the optimizer pushes the whole predicate
       below the join / reorders the inputs and drops the ON condition (see also C19)     [two tables]
@@ -196,6 +197,7 @@ Definition cls_sql (q : query) (qual : bool) : Z :=
           if is_some (q_where q) && qual then 5
           else if any_equi js then 6
           else if any_outer (removelast js) || right_outer (fst (last js (JInner, None))) then 7
+          else if any_outer js && is_some (q_where q) then 4
           else 0
       end
   end.
